@@ -420,7 +420,7 @@ def run(tier, seed, rec):
         dj.append((mc, nr, N, 1500 if quick else 15000, common.derive_seed(seed, "C06-dist-big", t), False))
     common.pool_merge(_dist_task, dj, rec)
     common.pool_merge(_uniform_task, [(common.derive_seed(seed, "C06-unif"), 200 if quick else 2000)], rec)
-    n_ex, steps, shards = (60, 40, 16) if quick else (800, 50, 32)
+    n_ex, steps, shards = (60, 40, 16) if quick else (300, 50, 32)
     common.pool_merge(_machine_shard, [(seed, i, n_ex, steps) for i in range(shards)], rec)
 
 
